@@ -270,6 +270,8 @@ func TestVerifBoundedC06(t *testing.T) {
 	known := map[string]bool{}
 	json.Unmarshal([]byte(os.Getenv("VERIF_KNOWN")), &known)
 	alphabet := []byte("/?{}:, a*.(\\|[%0$")
+	editAlphabet := append(append([]byte{}, alphabet...), '\t', '\n', '\r', '}', ']', ')', '-', '_', '~', '@', 'Z', '9', '#', '<', '"', 0x7f, 0xc3) // near misses use more characters, incl. other white space
+
 	type fail struct{ Input, What string }
 	var mu sync.Mutex
 	var fails []fail
@@ -381,8 +383,11 @@ func TestVerifBoundedC06(t *testing.T) {
 				if k < len(s1) {
 					work <- s1[:k] + s1[k+1:]
 				}
-				for _, c := range alphabet {
+				for _, c := range editAlphabet {
 					work <- s1[:k] + string(c) + s1[k:]
+					if k < len(s1) {
+						work <- s1[:k] + string(c) + s1[k+1:] // replacement
+					}
 				}
 			}
 		}
